@@ -1,7 +1,14 @@
 (* Regenerated obligations for C20 (the chooser: a single candidate, the gateway itself, then the configured priorities). *)
 From Coq Require Import String.
 From Gen Require Import Skeletons.
-From GW Require Import VerifiedDecisions.
+From GW Require Import VerifiedDecisions VerifiedBodies.
 
 Lemma plan_selectLocation_skeleton : gen_plan_selectLocation = verified_plan_selectLocation.
+Proof. reflexivity. Qed.
+
+(* bodies with their conditions (VerifiedBodies.v) *)
+Lemma plan_groupSelectionSet_body : gen_plan_groupSelectionSet = verified_plan_groupSelectionSet.
+Proof. reflexivity. Qed.
+
+Lemma plan_wrapSelectionSet_body : gen_plan_wrapSelectionSet = verified_plan_wrapSelectionSet.
 Proof. reflexivity. Qed.
